@@ -23,6 +23,7 @@ mod rng;
 mod show;
 mod shrink;
 mod simuser;
+mod statedrv;
 mod valid;
 
 use framework::Tier;
